@@ -836,7 +836,31 @@ func genLevel(repo, out string) {
 	if err != nil {
 		d = fmt.Sprintf("/-- UNTRANSLATABLE: %s -/\ndef %s : Unit := ()\n", strings.ReplaceAll(err.Error(), "-/", "- /"), spec.leanName)
 	}
-	sb.WriteString(d + "\nend GenLevel\n")
+	sb.WriteString(d + "\n")
+	// maxLevelIdx: the index that names the next table of a level is one above this
+	fd2 := findFunc(p, "levelManager", "maxLevelIdx")
+	spec2 := transSpec{
+		leanName: "maxLevelIdx",
+		binders:  "(idxs : List Int)",
+		retType:  "Int",
+		exprMap:  map[string]string{"lm.levels[level]": "idxs", "e.Value.(tableHandle).levelIdx": "e"},
+		state:    []string{"res"}, stateLn: []string{"res"}, litType: "Int",
+		ret:      func(vals []string, st []string) string { return vals[0] },
+		fallOff:  func(st []string) string { return "res" },
+		panicVal: "res",
+	}
+	d2 := ""
+	err2 := fmt.Errorf("levelManager.maxLevelIdx not found")
+	if fd2 != nil {
+		t := &translator{spec: spec2}
+		tr := t.stmts(fd2.Body.List, func() string { return "res" }, "", "")
+		err2 = t.err
+		d2 = fmt.Sprintf("def %s %s : %s :=\n  let res : Int := 0\n  %s\n", spec2.leanName, spec2.binders, spec2.retType, tr)
+	}
+	if err2 != nil {
+		d2 = fmt.Sprintf("/-- UNTRANSLATABLE: %s -/\ndef %s : Unit := ()\n", strings.ReplaceAll(err2.Error(), "-/", "- /"), spec2.leanName)
+	}
+	sb.WriteString(d2 + "\nend GenLevel\n")
 	if err := os.WriteFile(out, []byte(sb.String()), 0644); err != nil {
 		fatal(err)
 	}
